@@ -167,7 +167,7 @@ func (d *Decoder) DecodeString() (string, error) {
 	if d.offset >= len(d.p) {
 		return "", io.ErrUnexpectedEOF
 	}
-	b, err := d.DecodeBytes()
+	b, err := d.decodeBytes()
 	if err != nil {
 		return "", fmt.Errorf("invalid data at byte %d: %w", d.offset, err)
 	}
@@ -183,8 +183,20 @@ func (d *Decoder) DecodeString() (string, error) {
 
 // DecodeBytes decodes a length-delimited slice of bytes from the stream and returns the value.
 //
+// In safe mode (the default) the result is a copy, so it stays valid when the caller modifies or
+// reuses the wrapped buffer; in fast mode it is a sub-slice of the wrapped buffer.
+//
 // io.ErrUnexpectedEOF is returned if the operation would read past the end of the data.
 func (d *Decoder) DecodeBytes() ([]byte, error) {
+	b, err := d.decodeBytes()
+	if err != nil || d.mode == DecoderModeFast {
+		return b, err
+	}
+	return append([]byte{}, b...), nil
+}
+
+// decodeBytes returns the length-delimited value at the current offset as a sub-slice of the wrapped buffer.
+func (d *Decoder) decodeBytes() ([]byte, error) {
 	if d.offset >= len(d.p) {
 		return nil, io.ErrUnexpectedEOF
 	}
